@@ -41,6 +41,12 @@ func (s *s1) checkC02(i int, out *TxnOutcome) {
 			return
 		}
 	}
+	// hidden state: the schema indexes of the database must still describe exactly the stored rows
+	// ("a later transaction behaves as if the failed one had never been submitted")
+	checkServerIndexes(e, s.srv, out.After, "C02.hidden-index-state")
+	if e.Stopped() {
+		return
+	}
 	// reply shape
 	if out.RPCError != "" {
 		// an RPC-level error for a syntactically valid transact is not the shape the statement describes
